@@ -560,10 +560,18 @@ package xpath
 //@   loop 0 invariant[counting@C03] ite(S0, kind(pos(node)) != 2 && !isroot(pos(node)) && parent(pos(node)) == parent(C0) && 1 <= idx(pos(node)) && idx(pos(node)) <= idx(C0) && count == 1 + cnt(ref(test), parent(C0), idx(C0) - 1) - cnt(ref(test), parent(C0), idx(pos(node)) - 1) && 1 <= count && count <= 1 + idx(C0) - idx(pos(node)), pos(node) == C0 && count == 1)
 //@   loop * invariant[cursor@C13] cur(t) == old(cur(t)) && pos(cur(t)) == old(pos(cur(t)))
 //@ func lastFunc$1
-//@   props C15 C13
+//@   props C15 C13 C03
+//@   mode int
 //@   conforms functionQuery.Func
-//@   theory stream for C13
-//@   uses one-document
+//@   theory stream for C13 C03
+//@   uses one-document tree-child tree-parent tree-kinds tree-depth
+//@   let C0 = pos(cur(t))
+//@   let S0 = kind(pos(cur(t))) != 2 && !isroot(pos(cur(t)))
+//@   ensures[last@C03] result == box(float(ite(S0, cnt(ref(test), parent(C0), nch(parent(C0))), ite(testv(ref(test), C0), 1, 0))))
+//@   loop 0 apply cntZero(ref(test), parent(C0))
+//@   loop 0 apply cntStep(ref(test), parent(C0), idx(pos(node)))
+//@   apply cntStep(ref(test), parent(C0), idx(pos(node)))
+//@   loop 0 invariant[counting@C03] ite(S0, kind(pos(node)) != 2 && !isroot(pos(node)) && parent(pos(node)) == parent(C0) && 1 <= idx(pos(node)) && idx(pos(node)) <= nch(parent(C0)) && count == cnt(ref(test), parent(C0), idx(pos(node)) - 1) && 0 <= count && count < idx(pos(node)), pos(node) == C0 && count == 0)
 //@   loop * invariant[cursor@C13] cur(t) == old(cur(t)) && pos(cur(t)) == old(pos(cur(t)))
 //@ func concatFunc
 //@   props C15
